@@ -95,6 +95,21 @@ theorem isXover_iff (b : Base) (hn : b.numHops = sumHops b.pm) (_hc : b.pm.currH
   by_cases h3 : m.currHF + 1 < m.s0 <;> by_cases h4 : m.currHF + 1 < m.s0 + m.s1 <;>
   simp [h1, h2, h3, h4, segStart, segLen] <;> omega
 
+/-- whatever the pointers: a reported cross-over has a following hop (in particular a path
+without hops never reports one) -/
+theorem isXover_imp_next_hop (b : Base) (h : isXover b = true) :
+    b.pm.currHF + 1 < b.numHops := by
+  unfold isXover at h
+  simp at h
+  exact h.1
+
+/-- whatever the pointers: first-hop-after-cross-over needs a previous hop and segment -/
+theorem isFirstHopAfterXover_imp_prev (b : Base) (h : isFirstHopAfterXover b = true) :
+    b.pm.currINF > 0 ∧ b.pm.currHF > 0 := by
+  unfold isFirstHopAfterXover at h
+  simp at h
+  exact ⟨h.1.1, h.1.2⟩
+
 /-- first-hop-after-cross-over is reported exactly when the current hop is the first hop of a
 segment that is not the first segment (pointers consistent, segments non-empty) -/
 theorem isFirstHopAfterXover_iff (b : Base) (hs : Shape b.pm) (hn : b.numHops = sumHops b.pm)
